@@ -85,7 +85,7 @@ fn gen_jv(rng: &mut Rng, depth: u32) -> JV {
         0 => JV::Null,
         1 => JV::Bool(rng.chance(1, 2)),
         2 => JV::Num(rng.range(-50, 1000) as f64),
-        3 => JV::Num(*rng.pick(&[0.5, 1.25, -3.75, 1e6, 123456.789, 0.001])),
+        3 => JV::Num(*rng.pick(&[0.5, 1.25, -3.75, 1e6, 123456.789, 0.001, -0.0, 9007199254740992.0, 1e-7, 123456789012345.0])),
         4 => JV::Str((*rng.pick(&["", "x", "héllo", "a b", "q\\z", "line", "12", "true", "ü"])).to_string()),
         5 => JV::List((0..rng.below(4)).map(|_| gen_jv(rng, depth + 1)).collect()),
         _ => {
@@ -1025,13 +1025,29 @@ pub fn violates(sc: &Scenario, clause: &str) -> bool {
     matches!(judge(sc, &rr).viol, Some(v) if v.clause == clause)
 }
 
+/// A `rebind` failing statement (`n = 2`) is only known to fail while an earlier statement
+/// binds n; the shrinker must not take that statement away.
+fn script_valid(script: &[CStmt]) -> bool {
+    for (i, s) in script.iter().enumerate() {
+        if let CStmt::Fail(class, text) = s {
+            if class == "rebind" {
+                let name = text.split(" =").next().unwrap_or("").trim().to_string();
+                if !script[..i].iter().any(|p| matches!(p, CStmt::Bind(n, _) | CStmt::OutBind(n, _) if *n == name)) {
+                    return false;
+                }
+            }
+        }
+    }
+    true
+}
+
 pub fn shrink(sc: &Scenario, clause: &str) -> Scenario {
     let mut cur = sc.clone();
     let mut budget = 300;
     loop {
         let mut progress = false;
         let mut try_c = |c: Scenario, cur: &mut Scenario, progress: &mut bool, budget: &mut i32| {
-            if *budget <= 0 || c == *cur {
+            if *budget <= 0 || c == *cur || !script_valid(&c.script) {
                 return;
             }
             *budget -= 1;
